@@ -55,4 +55,44 @@ CHECKS = {
         "note": "Trusted: futures::task::AtomicWaker's contract, the executor. Memory-ordering strength is not judged.",
         "technique": "dominator / must-pass-through ordering rules on rustc MIR incl. coroutine bodies",
     },
+    "C01": {
+        "text": "Partial, static (structural necessary conditions of ACI, decided on the MIR of all Merge/LatticeFrom impls of `lattices`): product lattices generated by "
+                "derive(Lattice) (Pair) merge every field on every path (a `||` short-circuit or early return is reported); every Merge/LatticeFrom/IsBot/PartialOrd capability "
+                "an impl's where-clause demands is exercised by its body or a closure/helper reachable from it (a silently dropped nested merge or conversion leaves its bound "
+                "unused); Point::merge returns only through the values-equal edge. ACI on values (Max's comparison direction, VecUnion lengths, UnionFind, backing collections) "
+                "is NOT decided.",
+        "note": "Oracle = the impls' own where-clauses. GHT impls are excluded (their merge goes through merge_node; C08 is not applicable). One table exception (a superfluous bound in WithTop).",
+        "technique": "bound-use (HIR predicates vs resolved MIR calls) + must-pass-through rules on rustc MIR",
+    },
+    "C02": {
+        "text": "Partial, static (flag discipline of all 17 Merge impls incl. GHT, on the MIR, all paths): the bool of every nested merge is consumed (flows to the result or decides a "
+                "branch/assert); a constant `false` is never returned on a path on which *self was definitely assigned; a constant `true` is never returned on a path on which "
+                "nothing can have mutated *self; length-derived flags read the old len() before and the new len() after every mutation. Exactness on values (`<` vs `<=`) is NOT decided.",
+        "note": "Assumes a call receiving no &mut into *self and no closure cannot mutate *self. One table exception (DomPair's incomparable-keys arm).",
+        "technique": "def-use consumption + must/may write dataflow + dominance on rustc MIR",
+    },
+    "C03": {
+        "text": "Partial, static: every IsBot/IsTop/PartialOrd/PartialEq capability demanded by the where-clause of each comparison/bottom/top impl of `lattices` (113 impls) is exercised "
+                "- this is the 'bottom entries are invisible' clause (MapUnion/WithBot comparisons declare `Val: IsBot` because they must filter); derive(Lattice) output answers "
+                "`true` only after consulting every field; each lattice with a cross-representation Merge has PartialOrd and PartialEq against the same shape. That the computed "
+                "order equals the merge-induced order on values is NOT decided.",
+        "note": "Oracle = the impls' own where-clauses and the sibling impls.",
+        "technique": "bound-use + must-pass-through + sibling-impl cross-check on rustc MIR / impl facts",
+    },
+    "C05": {
+        "text": "Partial, static: for both tombstone lattices (set and map), on the MIR of merge: the elements extended into the live collection come (by def-use through the iterator "
+                "adaptor chain) from a filter whose closure tests membership in self.tombstones; the elements extended into self.tombstones come from an inspect whose closure "
+                "removes them from the live collection; the Remove/TombstoneSet/Merge/IsBot capabilities are exercised. Order-independence over histories and backend equivalence "
+                "(roaring/FST) are NOT decided.",
+        "note": "Necessary conditions of 'deleted stays deleted'; sibling agreement between the set and the map variant.",
+        "technique": "def-use through iterator adaptors + closure call facts on rustc MIR",
+    },
+    "C09": {
+        "text": "Partial, static: the 11 composite checkers of lattices::algebra are conjunctions; from the MIR call graph with argument wiring, the transitive set of (base law, "
+                "operation/element positions) of each composite contains its textbook definition (abstract algebra is the oracle: e.g. semiring = commutative monoid(f,0) + "
+                "monoid(g,1) + 0 absorbing for g + both distributivities); every component verdict is `?`-propagated and Ok(()) is reached only after all components were "
+                "called. That base law checkers enumerate all tuples and test the right equation is NOT decided.",
+        "note": "Parameter roles are identified by position in the public signatures.",
+        "technique": "call-graph containment with argument-flow (who-must-call) on rustc MIR",
+    },
 }
